@@ -228,3 +228,95 @@ def simulated_pool(order, log=None):
 def perm_of(order, n):
     keys = [(order[i % len(order)], i) for i in range(n)] if order else [(0, i) for i in range(n)]
     return [i for _, i in sorted(keys)]
+
+
+# ------------------------------------------------------------------ deterministic expansion (size classes)
+
+# sizes that straddle typical implementation thresholds (block sizes, chunk sizes, special long paths)
+THRESHOLDS = [15, 16, 17, 31, 32, 33, 63, 64, 65, 127, 128, 129, 255, 256, 257, 1023, 1024, 1025, 2049]
+THRESHOLDS_THOROUGH = THRESHOLDS + [4095, 4096, 4097, 8193]
+
+
+def size_bucket(n):
+    """Class label of a size: which threshold neighbourhood it lies in."""
+    for lo, hi in ((15, 17), (31, 33), (63, 65), (127, 129), (255, 257), (1023, 1025)):
+        if lo <= n <= hi:
+            return "size_%d_%d" % (lo, hi)
+    if n >= 2049:
+        return "size_ge_2049"
+    return "size_other"
+
+
+def threshold_sizes(tier, cap=None):
+    """A size drawn from the threshold list (4 in 5) or anywhere in 1..2100 (1 in 5)."""
+    ths = [t for t in (THRESHOLDS_THOROUGH if tier == "thorough" else THRESHOLDS) if cap is None or t <= cap]
+    return st.one_of(st.sampled_from(ths), st.sampled_from(ths), st.sampled_from(ths), st.sampled_from(ths),
+                     st.integers(1, min(cap or 2100, 2100)))
+
+
+class Lcg:
+    """Tiny deterministic generator (64-bit LCG): the expansion of a case into a large input is a
+    pure function of the integers stored in the case."""
+
+    def __init__(self, seed):
+        self.x = (int(seed) * 2654435761 + 12345) % (1 << 64)
+
+    def next(self, n):
+        self.x = (self.x * 6364136223846793005 + 1442695040888963407) % (1 << 64)
+        return (self.x >> 33) % n
+
+    def pick(self, seq):
+        return seq[self.next(len(seq))]
+
+
+UNI_SPACES = ["\u00a0", "\u3000", "\u2003", "\u1680", "\u202f", "\u205f", "\u2000"]
+# boundaries of str.splitlines() that are neither "\n" nor "\r" nor blanks of the C locale: a text file is not
+# split into lines at them
+LINE_SEPS = ["\x85", "\u2028", "\u2029", "\x1c", "\x1d", "\x1e"]
+
+
+def words_with_inner(chars, exclude, max_size=3):
+    """Tokens with one of ``chars`` strictly inside (never first or last)."""
+    w = words(exclude, max_size=max_size, uni=False)
+    return st.tuples(w, st.sampled_from(list(chars)), w).map(lambda t: t[0] + t[1] + t[2])
+
+
+def words_with_edge(chars, exclude, max_size=2):
+    """Tokens that begin with, end with, or consist of one of ``chars``."""
+    w = words(exclude, max_size=max_size, uni=False)
+    c = st.sampled_from(list(chars))
+    return st.one_of(st.tuples(c, w).map("".join), st.tuples(w, c).map("".join), c, st.tuples(c, w, c).map("".join))
+
+
+# ------------------------------------------------------------------ memory layouts of tensors
+
+LAYOUTS = ["own", "storage_offset", "row_slice", "col_slice", "transposed", "strided_rows"]
+
+
+def as_layout(torch, t, layout, junk):
+    """A tensor equal to ``t`` (at least 1-D) laid out as ``layout`` inside a larger tensor filled with ``junk``.
+    Returns (view, base)."""
+    if layout == "own" or t.numel() == 0:
+        v = t.clone()
+        return v, v
+    if layout == "storage_offset":  # contiguous, but not at the start of its storage
+        base = torch.full((t.numel() + 5,), junk, dtype=t.dtype)
+        v = base[3:3 + t.numel()].view(t.shape)
+    elif layout == "row_slice":  # rows k..k+R of a taller tensor
+        base = torch.full((t.shape[0] + 3,) + tuple(t.shape[1:]), junk, dtype=t.dtype)
+        v = base[2:2 + t.shape[0]]
+    elif layout == "col_slice":  # columns of a wider tensor (1-D: one column of a matrix): strided rows, offset
+        if t.ndim == 1:
+            base = torch.full((t.shape[0], 3), junk, dtype=t.dtype)
+            v = base[:, 1]
+        else:
+            base = torch.full((t.shape[0], t.shape[1] + 2), junk, dtype=t.dtype)
+            v = base[:, 1:1 + t.shape[1]]
+    elif layout == "transposed" and t.ndim == 2:  # column-major storage
+        base = torch.full((t.shape[1], t.shape[0]), junk, dtype=t.dtype)
+        v = base.t()
+    else:  # every other row of a taller tensor
+        base = torch.full((2 * t.shape[0] + 1,) + tuple(t.shape[1:]), junk, dtype=t.dtype)
+        v = base[1::2]
+    v.copy_(t)
+    return v, base
